@@ -390,6 +390,12 @@ def run(ctx):
             if len(samples) < 3 and cls in ("malformed", "valid", "short"):
                 samples.append({"file": name, "class": cls, "answers": per_api})
 
+        if viol:
+            # Refuted already: report now. (The phases below repeat opens tens of thousands of times; on a tree
+            # whose opens misbehave they can run into their time limits, and a time-out must not hide a witness.)
+            finish(ctx, {"evaluations": evaluations, "distinct_nontrivial": len(distinct), "rule": "open phase only: the check stopped at the first phase that produced a violation", "samples": samples, "open_outcome_matrix": matrix}, viol, None,
+                   assumptions=["later phases (repeated opens, credentials, repair) were not run because the open phase already refuted the property"])
+            return
         # ---------------------------------------------------------------- failed opens leave nothing behind
         many = [p for p in paths if os.path.basename(p) in (("size-71", "size-16", "ver1-gen0", "trunc-00", "trunc-72", "missing", "magic-byte0-flipped") if q else
                                                              ("size-71", "size-16", "size-17", "size-56", "ver1-gen0", "ver0-gen2", "trunc-00", "trunc-15", "trunc-16", "trunc-40", "trunc-72", "missing", "a-directory", "magic-byte0-flipped", "all-zero-72", "size-4096", "symlink-to-valid"))]
